@@ -6,4 +6,7 @@
             final(self).old_secrets@ == old(self).old_secrets@
             || (pos < old(self).old_secrets@.len() && final(self).old_secrets@ == old(self).old_secrets@.update(pos as int, (secret, idx)))
             || (pos == old(self).old_secrets@.len() && final(self).old_secrets@ == old(self).old_secrets@.push((secret, idx)))),   //[C03.secrets.provide-frame]
+        // an index that was already provided (it is not below the lowest index seen) is a no-op: a verified secret is never
+        // replaced by a replay
+        min_seen(old(self).old_secrets@) <= idx ==> final(self).old_secrets@ == old(self).old_secrets@,   //[C03.secrets.provide-seen-index-is-noop]
         r.is_err() ==> final(self).old_secrets@ == old(self).old_secrets@,                   //[C10.secrets.provide-err-frame]
